@@ -131,6 +131,7 @@ type TarShape struct {
 	EndMarker       bool // >= 2 zero blocks terminate the stream
 	Leftover        int  // bytes after the last full block
 	NonZeroAfterEOA bool
+	Types           map[byte]int // raw type flags of all header blocks (incl. extension headers 'x', 'g', 'L', 'K')
 }
 
 // ReadTar decodes every member (stdlib reader) and the raw block structure.
@@ -169,7 +170,7 @@ func isZero(b []byte) bool {
 }
 
 func tarShape(b []byte) (TarShape, error) {
-	var s TarShape
+	s := TarShape{Types: map[byte]int{}}
 	off := 0
 	for off+512 <= len(b) {
 		blk := b[off : off+512]
@@ -194,6 +195,7 @@ func tarShape(b []byte) (TarShape, error) {
 			return s, fmt.Errorf("tar: header at %d has bad size", off)
 		}
 		s.Headers++
+		s.Types[blk[156]]++
 		off += 512 + int((size+511)/512)*512
 	}
 	if off > len(b) {
